@@ -519,6 +519,9 @@ mod as_rfc_3339 {
     }
 }
 
+#[cfg(all(test, feature = "verif"))]
+mod verif;
+
 #[cfg(test)]
 mod tests {
     use std::time::Duration;
